@@ -22,6 +22,7 @@ M1 = {"length": "m", "time": "s"}
 M2 = {"length": "cm"}
 M3 = {"length": "km", "time": "min", "mass": "kg"}
 M4 = {"temperature": "K", "length": "m"}
+M5 = {"length": "m", "time": ""}  # a category named with no unit yet (an empty string) is still a category the system covers
 ALPHABET = (
     [("add", i, mp) for i in ("a", "b") for mp in ("none", "m1", "m2", "shared", "m3")]
     # a system flagged read-only is a registered system like any other (the flag is advisory: nothing enforces it)
@@ -40,6 +41,9 @@ ALPHABET = (
     # an amount typed as an int is re-expressed like its float twin (150 cm are 1.5 m); systems registered under ids the manager
     # proposes itself (GetNewId), and removed again out of order
     + [("convert", "length", "cm", 150), ("add-generated", "m1"), ("remove-generated", 0)]
+    # a category the unit database has never heard of is a category of the unit system all the same; a mapping that names a
+    # category without a unit
+    + [("setdefault", "a", "pipe roughness", "mm"), ("removecat", "a", "pipe roughness"), ("add", "b", "m5")]
     + [("remove", i) for i in ("a", "b", "z")]
     + [("setcur", i) for i in ("a", "b", None)]
     + [("template", t) for t in ("t1", "t2", "t3")]
@@ -48,7 +52,7 @@ ALPHABET = (
     + [("convert", "length", "m", 5.0), ("convert", "time", "min", 3.0), ("convert", "mass", "kg", 2.0)]
 )
 TEMPLATES = {"t1": {"length": "m"}, "t2": {"length": "m", "time": "s"}, "t3": {"mass": "kg"}}
-CATS = ("length", "time", "mass", "depth", "temperature")
+CATS = ("length", "time", "mass", "depth", "temperature", "pipe roughness")
 
 
 _ALT = []
@@ -107,7 +111,7 @@ class Run:
         self.log.append(("unit", c, u))
 
     def mapping(self, kind):
-        return {"none": None, "m1": dict(M1), "m2": dict(M2), "m3": dict(M3), "m4": dict(M4), "shared": self.shared}[kind]
+        return {"none": None, "m1": dict(M1), "m2": dict(M2), "m3": dict(M3), "m4": dict(M4), "m5": dict(M5), "shared": self.shared}[kind]
 
     def observed(self):
         m = self.m
@@ -352,7 +356,7 @@ def random_history(r, n):
     for _ in range(n):
         k = r.random()
         if k < 0.25:
-            acts.append(("add", r.choice(ids), r.choice(["none", "m1", "m2", "shared", "m3"])))
+            acts.append(("add", r.choice(ids), r.choice(["none", "m1", "m2", "shared", "m3", "m5"])))
         elif k < 0.37:
             acts.append(("remove", r.choice(ids + ["z"])))
         elif k < 0.52:
@@ -360,7 +364,7 @@ def random_history(r, n):
         elif k < 0.60:
             acts.append(("template", r.choice(["t1", "t2", "t3"])))
         elif k < 0.78:
-            c, u = r.choice([("length", "mm"), ("length", "Mm"), ("length", "m"), ("length", "cm"), ("length", "km"), ("time", "s"), ("time", "min"), ("mass", "g"), ("depth", "ft")])
+            c, u = r.choice([("pipe roughness", "mm"), ("length", "mm"), ("length", "Mm"), ("length", "m"), ("length", "cm"), ("length", "km"), ("time", "s"), ("time", "min"), ("mass", "g"), ("depth", "ft")])
             acts.append(("setdefault", r.choice(ids), c, u))
         elif k < 0.86:
             acts.append(("removecat", r.choice(ids), r.choice(["length", "time", "mass"])))
